@@ -31,6 +31,11 @@ Theorem C10_lookup_by_column_name : forall rows name j,
   column_index rows name = Some j -> nth_error (column_names rows) j = Some name.
 Proof. exact column_index_truthful. Qed.
 
+(* term_slices / get_slice by term: the slice of a term is exactly its contiguous range [start, start + width) *)
+Theorem C10_term_slice_exact : forall rows i r c n, NoDup (map (fun r => tkey (r_factors r)) rows) -> nth_error rows i = Some r ->
+  tkey (r_factors r) = tkey c -> length (r_cols r) = S n ->
+  option_map slice_of (lookup_term rows c) = Some (start_of rows i, start_of rows i + S n).
+Proof. exact term_slice_exact. Qed.
 (* variable-to-column indices: exactly the positions of the columns of the terms that use the variable *)
 Theorem C10_variable_indices_exact : forall rows v j, NoDup (map (fun r => tkey (r_factors r)) rows) ->
   (In j (variable_indices rows v) <->
@@ -108,6 +113,7 @@ Print Assumptions C10_each_range_contiguous.
 Print Assumptions C10_lookup_by_term.
 Print Assumptions C10_lookup_any_factor_order.
 Print Assumptions C10_lookup_by_column_name.
+Print Assumptions C10_term_slice_exact.
 Print Assumptions C10_variable_indices_exact.
 Print Assumptions C10_subset_defined_iff.
 Print Assumptions C10_subset_keeps_chosen_order.
